@@ -12,6 +12,8 @@ func init() {
 			asciiToIntRules(c, "C10")
 			requestWriterRules(c, "C10")
 			acceptRules(c, "C10")
+			c17Selection(c)
+			parserHelperRules(c, "C10")
 		},
 	})
 }
